@@ -2,7 +2,7 @@
 
 BOOK_NOTE = ("Trusted: Lean 4.33 kernel; axioms propext/Classical.choice/Quot.sound only (audited each run); the hand-written "
              "Lean model of orderbook.rs/side.rs/types.rs is tied to the code by differential execution on every run (testing, "
-             "not proof); BTreeMap/Vec/serde_json modelled or opaque; Rust harness, Lean driver and bin/check are trusted glue.")
+             "not proof); BTreeMap/Vec modelled (sorted association list / List), serde_json modelled for the snapshot types (C07); Rust harness, Lean driver and bin/check are trusted glue.")
 
 ENGINES = [
     {"name": "book", "path": "checklib/book.py + harness/src/bin/drive.rs + lean/Driver", "serves_properties":
@@ -18,7 +18,7 @@ NOTES = ("Technique family: machine-checked proof in Lean 4 (model + theorems) w
 LEVEL = {
     "C01": dict(engine="book", design_ref="DESIGN.md 6/C01",
                 technique="Lean 4 refinement proof (implementation model -> reference matching engine, every operation, every history, every observation; no bound) + queue-sortedness invariant + differential correspondence of model and reference engine against the real OrderBook",
-                text="implementation_is_reference_engine: for every valid fault-free operation sequence from a new book the result of every operation and the complete observation after it (orders, trades, all views) equal those of the reference engine Ref (proved by an abstraction map that forgets keys, stamps and aggregates; match loop by induction on fuel); queues_sorted_by_price and ref_match_consumes_prefix give best-price-first / earliest-first for every reachable state; fill rule and remainder handling. The model and Ref are compared with the real OrderBook after every operation of seeded histories (testing; this is the tie).",
+                text="implementation_is_reference_engine: for every valid fault-free operation sequence from a new book the result of every operation and the complete observation after it (orders, trades, all views) equal those of the reference engine Ref (proved by an abstraction map that forgets keys, stamps and aggregates; match loop by induction on fuel); queues_sorted_by_price and ref_match_consumes_prefix give best-price-first / earliest-first for every reachable state; fill rule and remainder handling. valid_histories_are_exactly_the_fault_free_ones (noFault_iff_feasible): the theorems' NoFault hypothesis holds exactly when ids refer to existing orders and per-side resting volume and cumulative traded volume stay below 2^32 after every operation - the property's own validity conditions - so the match loop never runs out of fuel, meets an unknown id or underflows; *_valid corollaries restate the headline theorems of C01-C07 and C13 for ValidHistory. The model and Ref are compared with the real OrderBook after every operation of seeded histories (testing; this is the tie).",
                 note=BOOK_NOTE),
     "C02": dict(engine="book", design_ref="DESIGN.md 6/C02",
                 technique="Lean 4 invariant proof over all operation histories (every published view = recomputation from the order list, incl. wrapping level probes) + model-free audit recomputing every view from get_orders() after every operation",
@@ -41,9 +41,9 @@ LEVEL = {
                 text="modify_is_reference_modify, ref_reduce_keeps_place, ref_replace_is_arrival, ref_place_limit_is_enter, ref_enter_keeps_identity, modify_dispatch, modify_none_none_noop for all states; modify-heavy histories with drain probes are compared against the reference engine and a C06 audit predicate on the real output.",
                 note=BOOK_NOTE),
     "C07": dict(engine="book", design_ref="DESIGN.md 6/C07",
-                technique="Lean 4 theorems about load(save s) + lock-step comparison of original and reloaded real books",
-                text="load_save: Inv b -> load (save b) = b (the rebuild restores both keyed maps, aggregates and the stamp counter literally), reload_reachable_indistinguishable (every continuation of every reachable state), reload_step_is_identity. Per run: real serde_json round trips (memory, compact file, pretty file; files kept so later saves overwrite) at random points, original and reloaded book driven in lock-step, Market likewise; every strict prefix of sampled snapshot files must be rejected (tested per file, not proved; JSON text opaque).",
-                note=BOOK_NOTE + " serde_json and the file system are opaque."),
+                technique="Lean 4 theorems down to the bytes: load(save b) = b under the invariant; a model of both serde_json writers, the reader and the field decoding with parse(render j) = some j (both layouts), loadText(saveText b) = some b, and every strict prefix of a written snapshot rejected (bracket-depth argument, by induction on the reader's fuel) + character-by-character comparison of the model's text with serde_json's on every reload, differential test of the reader on cut / padded / corrupted texts, lock-step comparison of original and reloaded real books",
+                text="load_save: Inv b -> load (save b) = b (the rebuild restores both keyed maps, aggregates and the stamp counter literally); reload_reachable_indistinguishable (every continuation of every reachable state). text_round_trip: parse (renderCompact j) = parse (renderPretty 0 j) = some j for every JSON value without escapes; loadText_saveText: for every state satisfying the invariant whose numbers fit their Rust field types the text save_json writes loads back to exactly that book. truncated_snapshot_rejected / truncated_market_snapshot_rejected: for ANY book (market) state, either writer and ANY cut offset the reader returns an error. Per run: the model's compact and pretty texts must equal serde_json's character by character for the same history; the real loader and the model reader must agree (accept/reject and what is loaded) on cut, whitespace-padded, one-character-corrupted, extra-member, duplicate-member, trailing-garbage and missing-queue_stamp variants; real round trips (memory, compact file, pretty file; files kept so later saves overwrite) with original and reloaded book driven in lock-step, Market likewise; every strict prefix of sampled snapshot files is also given to the real loader.",
+                note=BOOK_NOTE + " The reader model covers the JSON subset snapshots use (no escapes, null, negatives, fractions: it rejects them); that serde_json accepts nothing the model reader rejects on other inputs is tested on the variants above, not proved. File-system behaviour is opaque."),
     "C12": dict(engine="book", design_ref="DESIGN.md 6/C12",
                 technique="Lean 4 theorems (create_ok_iff, rejected creation leaves state identical, off-grid modify ignored) and invariant proof (every price on the grid in every reachable state) + grid audit on real output incl. both ends of the price range",
                 text="create_ok_iff, create_err_unchanged (whole state equal, no id consumed), modify_offgrid_ignored, prices_on_grid_always for all states, tick sizes and prices; per run: malformed-price and edge-price histories (0, tick, .. and .., floor(MAX/tick)*tick), grid membership of every order and level accounting audited after every op through book, market and environments.",
@@ -76,8 +76,8 @@ LEVEL.update({
                 text="market_op_local, market_fanout, market_queries_pointwise, market_projection: for every operation sequence each asset's book equals a stand-alone book run on the projected operations (proved, unbounded). Per run: Market<A,L> and MarketEnv<A,L> (A=1..4, per-asset ticks) vs real stand-alone OrderBooks and all-asset query cross-checks.",
                 note=ENV_NOTE),
     "C15": dict(engine="book", design_ref="DESIGN.md 6/C15",
-                technique="Lean 4 theorems (shuffle is a permutation, natural in the items, function of the generator state) + exact per-seed permutation prediction against the real shuffle",
-                text="shuffle_perm, shuffle_natural (the position permutation does not depend on what the instructions are), shuffle_by_positions, step_deterministic for all lists and generator states. shuffle_is_draws + shuffle_outcomes_are_all_permutations_once: the real shuffle is the explicit-draw loop on bounded draws, and over all n! valid draw vectors that loop yields every permutation of a duplicate-free batch exactly once (so uniform independent draws give probability 1/n! per order). Per run the model's predicted permutation equals the real one for every seed and batch size and the generator must have advanced by exactly one shuffle. PARTIAL: uniformity/independence of the generator's draws (PRNG quality) is trusted. Props/C15 imports two Mathlib modules.",
+                technique="Lean 4 theorems (shuffle is a permutation, natural in the items, function of the generator state; all n! draw vectors give all n! orders once; each bounded draw exactly uniform over the 2^32 raw values) + exact per-seed permutation prediction against the real shuffle",
+                text="shuffle_perm, shuffle_natural (the position permutation does not depend on what the instructions are), shuffle_by_positions, step_deterministic for all lists and generator states. shuffle_is_draws + shuffle_outcomes_are_all_permutations_once: the real shuffle is the explicit-draw loop on bounded draws, and over all n! valid draw vectors that loop yields every permutation of a duplicate-free batch exactly once (so uniform independent draws give probability 1/n! per order). Per run the model's predicted permutation equals the real one for every seed and batch size and the generator must have advanced by exactly one shuffle. bounded_draw_exactly_uniform: rand's widening-multiply rejection (gen_range / gen_index) accepts exactly 2^lz of the 2^32 u32 values for every result r < range - no modulo bias - and bounded_draw_accepts_at_least_half. PARTIAL: that the generator's raw 32-bit outputs are uniform and independent (PRNG quality) is trusted. Props/C15 and Lemmas/Lemire import a few Mathlib modules.",
                 note=ENV_NOTE),
 })
 
@@ -95,8 +95,8 @@ LEVEL.update({
                 text="runner_branches_equal (by decide on the translated source), simLoop_add (a run is a fold: n+m steps = n then m from the state left), run_deterministic. Per run the Lean model (generator, agents, environment, book) predicts complete real simulations of RandomAgents compositions bit-for-bit; all agent types are run twice, with/without progress bar, derived vs hand-written and in a separate OS process and must agree. PARTIAL: runtime nondeterminism cannot be exhibited by a model.",
                 note=SIM_NOTE),
     "C16": dict(engine="sim", design_ref="DESIGN.md 6/C16",
-                technique="Lean 4 theorems (RandomAgents instructions valid for all generator states, gen_range bounds, probability 0/>=1 corners, grid repair) + instruction-level audit of the real agents on a moving market",
-                text="random_update_valid (every instruction of a random agent is a no-op, a cancel of its own Active order or one on-grid in-range order), genRange_lt, act_p0_never, act_p1_always, sell_price_repair for all inputs; per run every instruction emitted by the real random/noise/momentum agents (single/multi-asset, tick 1..10, sigma up to 10, 1..200 steps) is audited and aborts are caught. PARTIAL on floats (sampling and rounding are audited, not proved).",
+                technique="Lean 4 theorems (RandomAgents instructions valid for all generator states, gen_range bounds, probability 0/>=1 corners; quoted limit prices of noise/momentum agents valid for every sample, exact rational arithmetic) + instruction-level audit of the real agents on a moving market incl. books at the bottom of the price range",
+                text="random_update_valid (every instruction of a random agent is a no-op, a cancel of its own Active order or one on-grid in-range order), genRange_lt, act_p0_never, act_p1_always, sell_price_repair for all inputs; buy_price_valid / sell_price_valid / quoted_prices_accepted: in exact arithmetic the limit prices of place_buy/sell_limit_order are on the tick grid and on the right side of the observed mid for EVERY sample of the price distribution (any finite value, or +inf) and every tick, so the placement cannot be rejected; per run every instruction emitted by the real random/noise/momentum agents (single/multi-asset, tick 1..10, sigma up to 10, 1..200 steps) is audited and aborts are caught. PARTIAL on floats (sampling and rounding are audited, not proved).",
                 note=SIM_NOTE),
     "C17": dict(engine="sim", design_ref="DESIGN.md 6/C17",
                 technique="Lean 4 theorems over exact rationals (mirroring a path negates every momentum signal; decision at -M is the side-mirror; probability even in M for any odd tanh) + exact evaluation of the documented rule on real saturated runs and mirrored-run comparison",
